@@ -54,6 +54,9 @@ func New(cfg dht.ServerConfig) (*Node, error) {
 	if cfg.QueryResendDelay == nil {
 		cfg.QueryResendDelay = func() time.Duration { return time.Millisecond }
 	}
+	if cfg.Exp == 0 {
+		cfg.Exp = 2 * time.Hour // what NewDefaultServerConfig uses; zero would expire every item at once
+	}
 	s, err := dht.NewServer(&cfg)
 	if err != nil {
 		return nil, err
